@@ -67,6 +67,12 @@ func KeySpecOf(kind string) signature.KeySpec {
 		return signature.KeySpec{Type: signature.KeyTypeRSA, Size: 4096}
 	case "rsa1024":
 		return signature.KeySpec{Type: signature.KeyTypeRSA, Size: 1024}
+	case "rsa1536":
+		return signature.KeySpec{Type: signature.KeyTypeRSA, Size: 1536}
+	case "rsa2560":
+		return signature.KeySpec{Type: signature.KeyTypeRSA, Size: 2560}
+	case "rsa3584":
+		return signature.KeySpec{Type: signature.KeyTypeRSA, Size: 3584}
 	case "p256":
 		return signature.KeySpec{Type: signature.KeyTypeEC, Size: 256}
 	case "p384":
